@@ -22,7 +22,7 @@ var selftestHarnesses = []string{
 	"vfH_fault_write", "vfH_invalid_req", "vfH_deadline", "vfH_close_seq", "vfH_pool_seq", "vfH_prepared_seq",
 	"vfH_tokenlist_diff", "vfH_fold_diff", "vfH_key_diff", "vfH_parsers_nopanic", "vfH_offer_variants",
 	"vfH_upgrade_logic", "vfH_origin_wiring", "vfH_server_boundary", "vfH_connect_reply", "vfH_frame_nopanic",
-	"vfH_socks_reply", "vfH_origin_urls", "vfH_dial_logic", "vfH_smoke_stdlib", "vfH_smoke_range",
+	"vfH_socks_reply", "vfH_origin_urls", "vfH_dial_logic", "vfH_smoke_stdlib", "vfH_smoke_range", "vfH_wc_blocked",
 }
 
 func cmdSelftest(args []string) int {
